@@ -441,6 +441,18 @@ func cmdRun(args []string) int {
 			caseCPU = v
 		}
 	}
+	// per-kind budgets (small geometries need microseconds per case)
+	kindCPU := func(kind string) int {
+		if os.Getenv("VERIF_CASE_CPU") == "" {
+			if kl, ok := p.(interface{ KindCPU(kind, tier string) int }); ok {
+				if v := kl.KindCPU(kind, *tier); v > 0 {
+					return v
+				}
+			}
+		}
+		return caseCPU
+	}
+	kindBudgets := map[string]int{}
 	wallLimit := time.Duration(cpuLimit) * 4 * time.Second
 	asLimit := uint64(12 << 30)
 	if os.Getenv("VERIF_RACE") == "1" {
@@ -470,6 +482,10 @@ func cmdRun(args []string) int {
 				outf := filepath.Join(work, fmt.Sprintf("shard-%d-%d.json", si, attempt))
 				jf := filepath.Join(work, fmt.Sprintf("shard-%d-%d.journal", si, attempt))
 				errf := filepath.Join(work, fmt.Sprintf("shard-%d-%d.stderr", si, attempt))
+				caseCPU := kindCPU(sh.Kind)
+				mu.Lock()
+				kindBudgets[sh.Kind] = caseCPU
+				mu.Unlock()
 				cmd := exec.Command(*bin, "worker", "-prop", id, "-tier", *tier,
 					"-seed", strconv.FormatInt(*seed, 10), "-kind", sh.Kind,
 					"-lo", strconv.FormatInt(lo, 10), "-hi", strconv.FormatInt(sh.Hi, 10),
@@ -639,7 +655,7 @@ func cmdRun(args []string) int {
 		"distinct_transitions": len(total.Transitions),
 		"not_observed":         notObserved,
 		"shards":               len(shards),
-		"most_expensive_case":  map[string]any{"cpu_ms": total.MaxCaseCPUms, "kind": total.MaxCaseKind, "idx": total.MaxCaseIdx, "per_case_cpu_budget_s": caseCPU},
+		"most_expensive_case":  map[string]any{"cpu_ms": total.MaxCaseCPUms, "kind": total.MaxCaseKind, "idx": total.MaxCaseIdx, "per_case_cpu_budget_s": kindCPU(total.MaxCaseKind), "per_kind_cpu_budget_s": kindBudgets},
 		"exhaustive":           exhaustive,
 	}
 	if len(inconclusive) > 0 {
